@@ -53,17 +53,21 @@ contract(
     loops={0: dict(index="k", invariant=["0 <= i and i <= k"]),
            1: dict(index="k2", invariant=["0 <= i"])},
 )
+# a dict / list token is a complete bracketed text: it starts with the opening bracket and ends with a closing one (an unclosed
+# literal is no token - the defect repaired in e01fcad made `[` a list token)
 contract(
     Q + "QDict.check",
     params={"string": "str"}, returns="Tuple[Optional[str], str]", requires=["len(string) > 0"],
-    ensures=BRACKET_ENS, modifies=[], raises=[],
-    loops={0: dict(index="k", invariant=["1 <= i"])},
+    ensures=BRACKET_ENS + ["result[0] is None or (len(result[0]) >= 2 and result[0][0] == '{' and result[0][len(result[0]) - 1] == '}')"],
+    modifies=[], raises=[],
+    loops={0: dict(index="k", invariant=["i == k + 1", "to_consume >= 1"])},
 )
 contract(
     Q + "QList.check",
     params={"string": "str"}, returns="Tuple[Optional[str], str]", requires=["len(string) > 0"],
-    ensures=BRACKET_ENS, modifies=[], raises=[],
-    loops={0: dict(index="k", invariant=["1 <= i"])},
+    ensures=BRACKET_ENS + ["result[0] is None or (len(result[0]) >= 2 and result[0][0] == '[' and result[0][len(result[0]) - 1] == ']')"],
+    modifies=[], raises=[],
+    loops={0: dict(index="k", invariant=["i == k + 1", "to_consume >= 1"])},
 )
 
 QTYPES = ["QString", "QInteger", "QFunction", "QDict", "QList", "QVariable"]
@@ -135,7 +139,8 @@ contract(
     params={"line": "str", "namespace": "Dict[str,JV]"}, returns="Tuple[QVariable, QToken]",
     # query() hands over stripped, non-empty statements
     requires=["len(line) > 0 and not line[0].isspace() and not line[len(line) - 1].isspace()"],
-    ensures=["fresh(result[0]) and fresh(result[1])"],
+    # (a statement is an assignment: one that holds no '=' is rejected - the defect repaired in 49b6adf parsed `true` as `tru = true`)
+    ensures=["fresh(result[0]) and fresh(result[1])", "'=' in line"],
     # (cut: the value text ends where the statement ends - so it is not blank, because the statement is stripped)
     ghost_code=[dict(after="val_str = line[separator_i + 1", code="assert len(val_str) == 0 or val_str[len(val_str) - 1] == line[len(line) - 1]")],
     modifies=["alloc"], writes_fresh=TOKEN_FRESH, raises=["QueryParseException"],
